@@ -10,6 +10,14 @@ CHECKS = {
          "Every ordered endpoint pair on a 5x5 (thorough 6x6) lattice, zero-length included, against every half-step probe point and every other segment, in both operand orders, repeated under 5 exact float transforms (2^17, 2^-10, +-2^20 offsets, dyadic offset): raycast on/in, contains-point, collinear-point, intersects (exact + symmetric), contains-segment compared with integer orientation predicates. Complete enumeration, no sampling.",
          "Small-scope: all order types of (segment, point) and (segment, segment) configurations incl. 4 collinear points occur on a 5x5 lattice; coordinates outside the dyadic <=2^20 domain are not covered. Trusted: verif/mc/exact (two formulations cross-checked each run).",
          "DESIGN.md §3 C19"),
+ "C05": ("bounded exhaustive enumeration of calls (object pool squared x every method; all short byte/token strings and all documents within 1-2 deviations under 4 option sets) on an instrumented build of the real code with a deterministic fuel oracle, in crash-isolating worker processes",
+         "A go/ast instrumenter inserts a tick at every function entry, closure entry and loop iteration of a scratch copy of /repo's working tree (go build -overlay; nothing committed). Pool = the C09 pool (1,100 / 3,500 objects of all 12 kinds) plus constructor-only degenerates (nil polygon, 0/1-position lines, short rings and holes, empty and 3-deep nested collections, extreme circles, indexed series) x 21 method groups (Object, Spatial, Collection, Circle, series accessors, geometry level) with every pool object as argument; Parse on every 1-2 byte string, '{'+2 bytes, every token string <= 5 (6) over 14 tokens, every document within 1 (2 for small seeds) deviations of ~150 seeds, nesting families to depth 1000 (3000), under 4 option sets, plus 9 methods on every accepted object. Each call gets 10^6 + 2000 (n+m+1)^2 ticks; exhausting them, panicking, breaking the (object, error) contract, or killing/stalling the worker is a violation (measured max on the clean tree: ~66k ticks).",
+         "Loops inside gjson/pretty/sjson/rtree are not instrumented (120 s no-progress kill of the worker instead). nil Object arguments are out of scope.",
+         "DESIGN.md §3 C05"),
+ "C16": ("stateless model checking of the real code under a controlled cooperative scheduler: DFS over all schedules with iterative preemption bounding; separate free-running race-detector pass",
+         "Instrumented build (scheduling point at every function entry, loop iteration, shimmed sync operation). 8,800 (thorough 26,000+) scenarios = every pair of colliding calls (same receiver / receiver is the other's argument / shared argument / same method on different receivers for package-level state; thorough adds 3-thread scenarios) over 14 shared objects of all kinds with and without geometry and child indexes, a Circle and a moved polygon; for each scenario every schedule with 0 and 1 preemptions, and 2 (thorough 3) when the product of the calls' scheduling-point counts is within budget; every call's result must equal its solo result on a fresh pool; replay determinism asserted (divergence on a replayed prefix is a hard error). Then every scenario x 20 (100) rounds with real goroutines under go build -race.",
+         "Interleaving granularity is the instrumented program point; memory-order effects only through the race detector. Dependencies are not instrumented.",
+         "DESIGN.md §3 C16"),
  "C13": ("bounded exhaustive enumeration of a numeric lattice (centres x radii x bearings x distance factors x operand kinds/orders; all step counts) on the real Circle code vs an independent vector great-circle model with the stated tolerance band",
          "Full product of 7 (thorough 10) centres incl. poles and antimeridian x 12 (16) radii from 0 to half the circumference x bearings every 15 (3) degrees x distance factors {0, .5, 1-1e-4, 1-3e-8, 1+3e-8, 1+1e-4, 1.5}: Point and SimplePoint, contains and intersects, both operand orders, must agree with each other and with the reference distance outside the band max(1 mm, 1e-8 r); monotone in the radius; circle-circle contains/intersects over the same grid x radius alphabet; JSON form and re-parse for radii incl. negative, NaN, Inf, 3piR x every step count -1..4096; polygon approximation closed, right vertex count, rectangle contains the centre.",
          "Decided on the numeric lattice only (continuum claim). Sphere radius 6371e3 m. Trusted: verif/mc/sphere (unit vectors, atan2).",
